@@ -23,11 +23,12 @@ PROPS["C06"] = Prop(
 PARAMS["C06"] = {"rule": "exhaustive: for N in 0..=8, every reachable (front, back), directly and via a clone, every operation with every argument 0..=len+2, bracketed by the passive observers; plus seeded random operation sequences (length ≤ 64) over the length lattice. Distinct = distinct scenario lines; non-trivial = at least one operation returned Some(_)."}
 
 PROPS["C01"] = Prop(
-    "C01", ["GA.Props.C01"],
+    "C01", ["GA.Props.C01", "GA.Props.C16", "GA.Props.BodyBoxed"],
     [Engine("layout", scen.layout, sig=lambda l: l.split()[0]),
      Engine("layout", scen.layout_full, bin="layout_full", sig=lambda l: l.split()[0]),
-     Engine("xmute", scen.xmute, sig=lambda l: "xmute")],
-    trusted=[KERNEL, TRANSLATOR, HARNESS,
+     Engine("xmute", scen.xmute, sig=lambda l: "xmute"),
+     Engine("heap", scen.heap_c01, sig=lambda l: "heap/" + l.split()[2], body_view=True)],
+    trusted=[KERNEL, TRANSLATOR, BODYTIE, HARNESS,
              "modelled, not verified: rustc's implementation of repr(C), repr(transparent), [T; 0] and PhantomData layout (the Rust Reference's algorithm is the model); validated against size_of/align_of on the grid"],
     assumptions=["every Rust type has 0 < align and align | size (language guarantee); element layouts are abstracted to (size, align)",
                  "the oracle [T; N] is represented by the language-guaranteed N * size_of::<T>() / align_of::<T>()"],
@@ -44,9 +45,9 @@ def own_sig(l):
 
 
 PROPS["C04"] = Prop(
-    "C04", ["GA.Props.C04", "GA.Props.Body", "GA.Props.BodyCollect"],
+    "C04", ["GA.Props.C04", "GA.Props.Body", "GA.Props.BodyCollect", "GA.Props.BodyBoxed"],
     [Engine("own", scen.own_c04, sig=own_sig, body_view=True),
-     Engine("heap", scen.heap_c04, sig=lambda l: l.split()[0] + "/" + l.split()[2])],
+     Engine("heap", scen.heap_c04, sig=lambda l: l.split()[0] + "/" + l.split()[2], body_view=True)],
     trusted=[KERNEL, TRANSLATOR, BODYTIE, HARNESS, OWN_TRUST],
     assumptions=["element ids are distinct; caller code is a function of the call index (one injected panic per run)",
                  "a second panic during unwinding aborts the process and is outside the property",
@@ -76,8 +77,8 @@ PROPS["C07"] = Prop(
 PARAMS["C07"] = {"rule": "N in {0..8,16,17,33} x item counts 0..=N+3 x nine size hints (exact, loose, absent-upper, lying low/high, excluding N) x fused / non-fused / never-ending scripts x stack/boxed x try/panicking form x a panic at every poll; plus seeded random scripts. Non-trivial = the call returned Ok or Err (not a panic)."}
 
 PROPS["C08"] = Prop(
-    "C08", ["GA.Props.C08", "GA.Props.BodyCollect"],
-    [Engine("own", scen.own_c08, sig=own_sig, body_view=True), Engine("heap", scen.heap_c08, sig=lambda l: l.split()[0] + "/" + l.split()[2])],
+    "C08", ["GA.Props.C08", "GA.Props.BodyCollect", "GA.Props.BodyBoxed"],
+    [Engine("own", scen.own_c08, sig=own_sig, body_view=True), Engine("heap", scen.heap_c08, sig=lambda l: l.split()[0] + "/" + l.split()[2], body_view=True)],
     trusted=[KERNEL, TRANSLATOR, HARNESS, OWN_TRUST],
     assumptions=["caller code does not panic in this property (C04 covers panics); closures are stateful recorders in the harness",
                  "correspondence covers N in {0..8,16,17,33}; theorems cover every N"],
@@ -186,8 +187,9 @@ PROPS["C20"] = Prop(
 PARAMS["C20"] = {"rule": "list form: every element count 0..=64, 100, 128, 255, 256 x {arr!, box_arr!} x {Copy, non-Copy elements} with index-logging element expressions, trailing commas 0/1/2 at small and boundary counts; both repeat forms x N in {0..8,16,17,31,32,33,64,97,255,256,1000,1023,1024} x {arr!, box_arr! (Copy and Clone-only elements)}: type-level length, values, evaluation log. Const positions: each list count and each repeat length as a const item (plus static and const fn bodies), compiled against the crate and compared with the literal at run time."}
 
 PROPS["C18"] = Prop(
-    "C18", ["GA.Props.C18"],
-    [Engine("constapi", scen.constapi, runner=corpora.constapi_runner, sig=lambda l: " ".join(t for t in l.split() if t.split("=")[0] in ("fn", "ty")))],
+    "C18", ["GA.Props.C18", "GA.Props.C20"],
+    [Engine("constapi", scen.constapi, runner=corpora.constapi_runner, sig=lambda l: " ".join(t for t in l.split() if t.split("=")[0] in ("fn", "ty"))),
+     Engine("arrconst", scen.arrconst_c18, runner=corpora.arrconst_runner, sig=lambda l: " ".join(t for t in l.split() if t.split("=")[0] in ("form", "pos")))],
     trusted=[KERNEL, TRANSLATOR, HARNESS,
              "modelled, not verified: the compile-time interpreter's judgement is reduced to (a) references stay inside the allocation they were derived from, (b) a &mut is derived from the unique borrow, (c) documented panics, (d) only const fns are called; rustc's actual interpreter is the implementation side of the correspondence (tools/corpus.py compiles every generated const item against the crate and runs the value comparison)",
              "arr! and const_default in const positions are decided by C20 and C19"],
@@ -222,9 +224,9 @@ PARAMS["C17"] = {"rule": "N in {0..8,16,17,33,64,97}: serialize through JSON and
 HEAP_TRUST = "modelled, not verified: alloc's Vec/Box allocation contract (with_capacity, into_boxed_slice, Vec::from(Box<[T]>), Box::into_raw/from_raw, Box drop releasing a block iff the type has non-zero size), handle_alloc_error; the recording global allocator and the child-process observation of allocation failure are harness code"
 
 PROPS["C16"] = Prop(
-    "C16", ["GA.Props.C16"],
-    [Engine("heap", scen.heap_c16, sig=lambda l: l.split()[0] + "/" + next((t for t in l.split() if t.startswith("fault=")), "fault=none").split(":")[0])],
-    trusted=[KERNEL, TRANSLATOR, HARNESS, HEAP_TRUST],
+    "C16", ["GA.Props.C16", "GA.Props.BodyBoxed"],
+    [Engine("heap", scen.heap_c16, sig=lambda l: l.split()[0] + "/" + next((t for t in l.split() if t.startswith("fault=")), "fault=none").split(":")[0], body_view=True)],
+    trusted=[KERNEL, TRANSLATOR, BODYTIE, HARNESS, HEAP_TRUST],
     assumptions=["boxed generate / default_boxed is the only place the crate calls the allocator directly; all other alloc-feature operations go through Vec/Box and are checked by the recording allocator's discipline oracle",
                  "the panic runtime's own exception object is allocated and released by std and is not attributed to the crate"],
     nontrivial=lambda s, impl: "fault=none" not in s or " n=0 " in s,
@@ -232,7 +234,7 @@ PROPS["C16"] = Prop(
 PARAMS["C16"] = {"rule": "boxed generate / default_boxed x N in {0,1,2,3,4,5,7,8,16,17,33,256,1024} x 6 element kinds (sizes 0,3,4,8; drop-tracked, zero-sized drop-counted) x {no fault, a panic at every generator call, allocation failure (child process)}; Box map / zip with a panic at every call; every heap conversion x source lengths {0,N-1,N,N+1}. Recorded: size/align of every request, zero-size requests, releases not matching a live block and layout, blocks live at the end. Non-trivial = a fault was injected or N = 0."}
 
 PROPS["C15"] = Prop(
-    "C15", ["GA.Props.C15"],
+    "C15", ["GA.Props.C15", "GA.Props.BodyBoxed"],
     [Engine("heap", scen.heap_c15, sig=lambda l: l.split()[0])],
     trusted=[KERNEL, TRANSLATOR, HARNESS, HEAP_TRUST,
              "what rustc does with stack temporaries in general is not modelled: the multi-MiB constructors on a 256 KiB-stack thread are the evidence for that clause"],
